@@ -454,6 +454,10 @@ def function_lints(m, qn, fn):
     out += [("flag-equality", n, msg) for n, msg in flag_equality(fn)]
     out += [("cache-escape", n, msg) for n, msg in cache_escape(fn)]
     out += [("return-before-check", n, msg) for n, msg in return_before_check(fn)]
+    from . import lib_kind5
+    out += [("aggregate-length", n, msg) for n, msg in lib_kind5.aggregate_length(fn)]
+    out += [("specified-path", n, msg) for n, msg in lib_kind5.specified_path(fn)]
+    out += [("subtree-root", n, msg) for n, msg in lib_kind5.subtree_root(fn)]
     return out
 
 
